@@ -346,6 +346,9 @@ theorem survey_split_conserved (x : Rat) (n : Nat) (hn : n ≠ 0) :
 def NoGroupOverride (gs : List (String × Row × Rat)) (col : String) : Prop :=
   ∀ g ∈ gs, g.2.1.get? col = none
 
+instance (gs : List (String × Row × Rat)) (col : String) : Decidable (NoGroupOverride gs col) := by
+  unfold NoGroupOverride; infer_instance
+
 /-- **production rate conserved in the model of the code**: for a site whose equipment rows do not
 override the rate, the rates the components hand to their sources add up, over all components of all
 equipment groups, to the site's value (repairable rate; `…_nonrep` for the other one) -/
